@@ -112,6 +112,9 @@ pub fn ivs_pool(maxlen: usize) -> Vec<Vec<i32>> {
         out.push((0..len).map(|k| if k % 2 == 0 { IMAX } else { IMIN }).collect()); // boundary pattern
         out.push((0..len).map(|k| if k == len - 1 { 0 } else { -2 - k as i32 }).collect()); // contains a zero
         out.push((0..len).map(|k| 1 + (k as i32 % 2)).collect()); // small, repeating
+        if len >= 2 {
+            out.push((0..len).map(|k| if k == 0 { 0 } else { 5 + k as i32 }).collect()); // a zero followed by non-zeros
+        }
     }
     out
 }
@@ -122,6 +125,9 @@ pub fn fvs_pool(maxlen: usize) -> Vec<Vec<f32>> {
         out.push((0..len).map(|k| if k % 2 == 0 { f32::INFINITY } else { f32::NAN }).collect());
         out.push((0..len).map(|k| if k == len - 1 { 0.0 } else { -2.0 - k as f32 }).collect());
         out.push((0..len).map(|k| if k % 2 == 0 { f32::MAX } else { -0.0 }).collect());
+        if len >= 2 {
+            out.push((0..len).map(|k| if k == 0 { 0.0 } else { 5.0 + k as f32 }).collect()); // a zero followed by non-zeros
+        }
     }
     out
 }
@@ -177,8 +183,8 @@ impl Alpha {
             names: vec!["A".to_string(), "true".to_string()],
             codes: vec![Tree::I(1), Tree::L(vec![]), Tree::L(vec![Tree::L(vec![Tree::I(1)]), Tree::F(1.5), Tree::B(true)])],
             bvs: vec![vec![], vec![true], vec![false, true, true]],
-            ivs: vec![vec![], vec![1], vec![2, 1, 0], vec![IMAX, IMIN]],
-            fvs: vec![vec![], vec![0.0], vec![1.5, f32::NAN, -2.0]],
+            ivs: vec![vec![], vec![1], vec![2, 1, 0], vec![IMAX, IMIN], vec![0, 3]],
+            fvs: vec![vec![], vec![0.0], vec![1.5, f32::NAN, -2.0], vec![0.0, 2.0]],
             idxs: vec![(0, 0), (1, 2)],
             msgs: msgs(),
             graphs: vec![G::default(), graph_small()],
